@@ -10,7 +10,7 @@ META = {
             "like a top-level function is not a call edge); Y1 every binary operator the parser accepts (infix_bp != None, except |>) has an operator kind in BinaryOp::op_details, "
             "and that kind reaches an arm of the inferencer that unifies the operands with each other and with the operand type Gleam "
             "prescribes, and yields Gleam's result type (Int/Float arithmetic, Int/Float comparison -> Bool, equality -> Bool, "
-            "boolean -> Bool, <> -> String). One obligation per operator token. Y5 every arm of infer_pattern that says something about the matched value constrains the pattern's own type variable. Y7 unify picks the idx of two unsolved variables from both values. Y6 dependency_order_query traverses the body of every function of the module (the groups are complete).",
+            "boolean -> Bool, <> -> String). One obligation per operator token. Y5 every arm of infer_pattern that says something about the matched value constrains the pattern's own type variable. Y8 the idx counter runs on across the members of a recursion group. Y7 unify picks the idx of two unsolved variables from both values. Y6 dependency_order_query traverses the body of every function of the module (the groups are complete).",
     "explanation": "C09 as a whole quantifies over programs and feature interactions of a union-find unifier; no shape argument decides "
                    "it and this check does not pretend to. One clause is structural and necessary: an operator without a typing rule "
                    "leaves every expression using it (and everything bound to it) untyped. That clause is decided for all 22 operators.",
@@ -282,6 +282,7 @@ def run(F, res, tier):
     pattern_types_pinned(F, res)
     groups_scan_every_body(F, res)
     unknowns_unify_by_value(F, res)
+    group_members_share_one_counter(F, res)
 
 
 def resolver_swaps(F, res, rule="Y4"):
@@ -538,3 +539,49 @@ def unknowns_unify_by_value(F, res, rule="Y7"):
     res.ob(rule, "unify/unknowns-by-value", "unify of two unsolved variables chooses the surviving idx from the idx of both (the smaller wins), not by "
            "argument position", ok, where=f.loc(), how="both discriminants tested: %s; payloads read in the arm for (Unknown, Unknown): %s" %
            (sorted(seen_sides), sorted(reads)))
+
+
+def group_members_share_one_counter(F, res, rule="Y8"):
+    """Y8: the members of a recursion group are inferred over one union-find table; an unsolved variable is named by its idx.
+    The idx counter therefore has to run on from one member to the next: the `idx` an InferCtx is built with inside the loop
+    of infer_function_group_query is loop-carried (one of its definitions reads the `idx` field of the previous member's
+    context). With a loop-invariant start the n-th variable of every member has the same idx and two independent type
+    variables are shown (and re-instantiated by callers) as one: `fn f(x) { #(x, g) }` got fn(a) -> #(a, fn(a) -> a)."""
+    f = F.fn("ide::ty::infer::infer_function_group_query")
+    d = FL.Defs(f)
+    loops = [f.natural_loop(tl, hd) for tl, hd in f.back_edges()]
+    n, ok = 0, True
+    why = []
+    for b, i, s in f.stmts():
+        rv = s.get("rv") or {}
+        if rv.get("k") != "agg" or not (rv.get("adt") or "").endswith("InferCtx"):
+            continue
+        body = [L for L in loops if b in L]
+        if not body:
+            continue
+        n += 1
+        op = rv["ops"][rv["fields"].index("idx")]
+        # follow copies to the counter local; it must have a definition inside the loop that reads InferCtx.idx
+        seen, st, carried = set(), [op], False
+        while st:
+            o = st.pop()
+            pl = (o.get("cp") or o.get("mv")) if isinstance(o, dict) else None
+            if not pl or pl["l"] in seen:
+                continue
+            seen.add(pl["l"])
+            for dd in d.defs.get(pl["l"], []):
+                if dd[2] != "assign":
+                    continue
+                rv2 = dd[3]["rv"]
+                src = rv2.get("op") if rv2.get("k") == "use" else None
+                spl = (src.get("cp") or src.get("mv")) if isinstance(src, dict) else None
+                if spl and any(isinstance(e, dict) and e.get("n") == "idx" and (e.get("adt") or "").endswith("InferCtx") for e in spl.get("p", [])) \
+                        and any(dd[0] in L for L in body):
+                    carried = True
+                if isinstance(src, dict):
+                    st.append(src)
+        if not carried:
+            ok = False
+            why.append("the context built at line %s starts from a counter that no iteration updates from the previous member's idx" % s.get("ln"))
+    res.ob(rule, "group/one-idx-counter", "the idx counter of type variables runs on from one member of a recursion group to the next",
+           n > 0 and ok, where=f.loc(), how="; ".join(why) or "%d context(s) built in the loop, counter carried over" % n)
